@@ -85,7 +85,13 @@ def lawArr2 (cls : FnClass) (a b : Dt) : Law :=
     | .arithF => if isFlt ka && isFlt kb then promoted else .free
     | .equality | .ordering => .must (boolOf nul)
     | .logical => .raises
-    | .bitwise | .shift => if isInt ka && isInt kb then promoted else .raises
+    | .bitwise | .shift =>
+        -- both integers, and promoting to an integer dtype (int64 with uint64 promotes to float64)
+        if isInt ka && isInt kb then
+          (match resultType a b with
+           | some d => if d.core.isIntegral then .must d else .raises
+           | none => .raises)
+        else .raises
     | _ => .raises
 
 /-- Law for one array operand. -/
